@@ -10,11 +10,11 @@ from vf.models import scores as SM
 from vf.scorers import SCORER_NAMES, desc_from_spec, make_scorer
 from vf.spec import build, short
 
-SHARDS = {"quick": 12, "thorough": 16}
+SHARDS = {"quick": 16, "thorough": 16}
 WATCHDOG = {"quick": 1200, "thorough": 7200}
 FLOORS = {
     "quick": {"distinct_nontrivial": 300000, "K4_evaluations": 15000, "tuples_invalid": 300000,
-              "tuples_valid": 10000},
+              "tuples_valid": 10000, "scorers_with_history": 60},
     "thorough": {"distinct_nontrivial": 500000, "K4_evaluations": 50000, "tuples_valid": 40000},
 }
 ANCHORS = [
@@ -36,7 +36,8 @@ RULE = (
     "(valid rows + one invalid row), and malformed arguments (float, bool, object, 3-D, wrong "
     "width, ragged, lists). Oracle: validity predicate from the statement -> invalid must raise "
     "ValueError, valid must return the model value (interval) of exactly that cut; contract K4 "
-    "checks the soundness half on every evaluate call. Non-trivial = (scorer kind, n, p, tuple) "
+    "checks the soundness half on every evaluate call. Half of the scorer objects were fitted to a "
+    "series of another length and evaluated once before being fitted to X. Non-trivial = (scorer kind, n, p, tuple) "
     "that is invalid, or valid and value-checked; distinct by that key."
 )
 ASSUMPTIONS = [
@@ -51,7 +52,10 @@ UNSIGNED = [np.uint8, np.uint16, np.uint32, np.uint64]
 def make_recipe(rng, name, n, p):
     spec, _ = make_scorer(rng, name, p)
     X = rng.normal(0, 2, size=(n, p)).round(4)
-    return {"name": name, "spec": spec, "X": X, "sub_seed": int(rng.integers(2 ** 31))}
+    # half of the scorers have a history: fitted to another series (other length) and evaluated
+    # once before being fitted to X (what evaluate accepts must depend on the last fit only)
+    prefit = int(n + rng.choice([-2, -1, 1, 3, 4])) if rng.random() < 0.5 else None
+    return {"name": name, "spec": spec, "X": X, "sub_seed": int(rng.integers(2 ** 31)), "prefit": prefit}
 
 
 def _call(scorer, arg):
@@ -73,6 +77,19 @@ def exec_case(ctx, r):
     k = SM.n_cut_entries(desc)
     rng = np.random.default_rng(r["sub_seed"])
     scorer = build(spec)
+    if r.get("prefit"):
+        n0 = max(int(r["prefit"]), 2 * p + 4)
+        X0 = np.random.default_rng(r["sub_seed"] + 1).normal(3, 2, size=(n0, p))
+        try:
+            scorer.fit(X0)
+            first = [0, n0] if k == 2 else ([0, n0 // 2, n0] if k == 3 else [0, p + 1, 2 * p + 2, n0])
+            if SM.cut_is_valid(desc, tuple(first), n0, p):
+                scorer.evaluate(np.array([first], dtype=np.int64))
+                ctx.stat("scorers_with_history")
+        except Exception as ex:  # noqa
+            ctx.violation(sub, "history-exception", f"{short(spec)}: fit/evaluate on the earlier series "
+                          f"[{n0}x{p}] raised {type(ex).__name__}: {ex}", r)
+            return
     scorer.fit(X)
     tol = M.DataTol(X)
     ctx.stat(f"scorer[{r['name']}]")
